@@ -111,7 +111,7 @@ CHECKS = {
              'embedded SICD) are written, parsed out of band, regrouped by the model and reopened through open_product.',
         design='DESIGN.md 6/C02 (C10 paragraph)',
         note='proved: regrouping decision logic (unbounded counts). Correspondence: IID1 element numbers/groups of real files vs the model. '
-             'Only SIDD 2 structures are generated (versions 1 and 3 share the code paths but are not exercised). ' + TB,
+             'SIDD structures of versions 1, 2 and 3 are generated; write histories include chunks interleaved across images and non-forced flushes on in-memory targets. ' + TB,
         technique='Lean 4 proof (induction over image list) + write/read differential + out-of-band NITF parser'),
     'C09': dict(
         text='Lean 4 theorems about the CPHD block layout as make_file_header computes it, for all sizes: _align rounds up to a multiple of '
